@@ -65,3 +65,8 @@ package k8s
 //@   ensures [stopped_only_on_success] s.stopped && !old(s.stopped) ==> result == nil
 //@   ensures [stopped_only_after_flush] s.stopped && !old(s.stopped) ==> flushedAll
 //@   ensures [error_not_stopped] result != nil ==> s.stopped == old(s.stopped)
+
+// The constructor records its arguments unchanged (the mode -- write-through or periodic -- is decided by syncPeriod alone).
+//@ func NewK8sCacheStore props C19
+//@   modifies *
+//@   ensures [as_asked] typeis(result, "*objectStore") && unbox(result, "*objectStore") != nil && fresh(unbox(result, "*objectStore")) && unbox(result, "*objectStore").syncPeriod == syncPeriod && unbox(result, "*objectStore").shard == shard && unbox(result, "*objectStore").shardCount == shardCount && unbox(result, "*objectStore").gatewayClient == gatewayClient && !unbox(result, "*objectStore").stopped && unbox(result, "*objectStore").localStore != nil
